@@ -1,6 +1,8 @@
 """Shared Guard-level case generation and differential execution (C01, C03, C06, C07, C11, C17, C20)."""
 from __future__ import annotations
 
+import copy
+
 import itertools
 import random
 from typing import Any, Iterator
@@ -137,14 +139,33 @@ def run_sessions(sessions: list[tuple[dict, dict, list[dict]]], consts: dict, wi
     decision function that carries state from one request to the next (a memo keyed too coarsely, a mutated index) shows
     up as a disagreement on a later request of some session.  Returns the same rows as `run_batch` plus the session index."""
     impls, cmds, flat = [], [], []
+
+    def as_published(pol, cfg):
+        # "unserialisable": the document the engine is handed carries a value json.dumps refuses (a date under a key no evaluator reads):
+        # it has no etag; its decisions are those of the same document without that key, which is what the model is given
+        if not cfg.get("unserialisable"):
+            return pol
+        from datetime import date
+        return {**copy.deepcopy(pol), "issued": date(2024, 6, 1)}
+
     for si, (pol, cfg, reqs) in enumerate(sessions):
         events: list = []
         try:
-            g = real.make_guard(pol, cfg, events)
+            g = real.make_guard(as_published(pol, cfg), cfg, events)
         except Exception as e:  # noqa: BLE001
             g = None
             err = {"raised": real.exc_class(e)}
+        cfg = {k: v for k, v in cfg.items() if k != "unserialisable"} | ({"unserialisable": True} if cfg.get("unserialisable") else {})
         for req in reqs:
+            if isinstance(req, dict) and "__publish__" in req:
+                # a session item that is not a request: the engine is given another document; what follows is judged against it
+                pol = req["__publish__"]
+                if g is not None:
+                    try:
+                        (g.update_policy if req.get("alias") else g.set_policy)(as_published(pol, cfg))
+                    except Exception as e:  # noqa: BLE001
+                        g, err = None, {"raised": real.exc_class(e)}
+                continue
             if g is None:
                 out = err
             else:
@@ -156,7 +177,8 @@ def run_sessions(sessions: list[tuple[dict, dict, list[dict]]], consts: dict, wi
                     out = {"raised": real.exc_class(e)}
             impls.append(out)
             flat.append((pol, req, cfg, si))
-            cmd = real.guard_cmd(pol, req, cfg, consts, proto.build_oracle(pol, req, cfg.get("resolver"), cfg.get("checker")))
+            mcfg = {k: v for k, v in cfg.items() if k != "unserialisable"}
+            cmd = real.guard_cmd(pol, req, mcfg, consts, proto.build_oracle(pol, req, cfg.get("resolver"), cfg.get("checker")))
             if with_impl_spec and "ok" in out:
                 d = out["ok"]
                 cmd["impl"] = {"allowed": d["allowed"], "effect": d["effect"], "obligations": d["obligations"],
